@@ -52,6 +52,9 @@ def run(chk):
                o.kind == 'ok' and not o.m.uninterp and len(o.m.lookups) == 1 and o.m.lookups[0][1] == q, span, 'nowrap-%s-%s' % (ext, rel))
     chk.floor('R7.2', 'periodic scenarios evaluated', n, 7)
     extrapolate_selection(chk, lib, 'R7.3')
+    chk.rule('R7.4', "Periodic data must have equal first and last rows: unequal rows are rejected at build time before anything is solved (so range ends and their images map to one value)")
+    from . import spline as S
+    S.check_periodic_ends_only(chk, lib, 'R7.4')
     chk.sample({"wrapped query": "rem_euclid(q - x[0]; x[n_x-1] - x[0]) + x[0]"})
     chk.explanation = ("The argument wrap of the periodic spline is extracted symbolically: it is rem_euclid(q - x0, xn - x0) + x0 on "
                        "the interpolator's own axis, applied exactly when Extrapolate::Periodic and out of range, and feeds both lookup "
